@@ -29,27 +29,27 @@ CLAIMS = {
         "static rules, each required to reach an error-severity diagnostic or raise (a recognised guard that only warns = downgraded; an anchor without the guard = not enforced); "
         "error() counts or raises on every CFG path; both pipelines use raise_errors=True and gate each stage; no broad handler swallows; mains write the result only after the success "
         "test; statement lists are visited on every path; type tables are exhaustive over the grammar's type keywords; checks cover every AST slot of their subject. "
-        "Decides that each rule is enforced in the single visitor every context goes through, not 'all embeddings' as such. Also: the signal validator accepts on table membership only, inferred types are never mutated in place, dynamic bundle selection validates the selected name.",
+        "Decides that each rule is enforced in the single visitor every context goes through, not 'all embeddings' as such. Also: the signal validator accepts on table membership only, inferred types are never mutated in place, dynamic bundle selection validates the selected name. An explicit signal name is never dropped unvalidated when a literal is taken apart (R14), the lowering refuses a second write to a cell (R15), a selection is accepted only for a member or a run-time bundle (R16).",
    technique="guard-chain extraction of diagnostic sites + role predicates, CFG must-pass-through, grammar/table exhaustiveness",
    ref="DESIGN.md §2 C14"),
  "C15": dict(
    text="Static analysis of the inliner: the set of ASTLowerer maps that statement lowering can mutate is computed over the call graph; for each, a snapshot must dominate the "
         "lowering of the callee body and a restore must lie on every normal exit (CFG, finally-aware); the parameter environment must be replaced, not merged; every id a declaration "
         "registers must have a per-instance counter in its backward slice; wildcard signals never become actual-argument types. Decides hygiene of the inliner's bookkeeping, not "
-        "equivalence with the manually inlined program. Also: name tables are restored from snapshots after a callee body, in-place retyping scans every name table, parameters are unbound after the call, memory ids are fresh per expansion and the memory maps are saved/restored.",
+        "equivalence with the manually inlined program. Also: name tables are restored from snapshots after a callee body, in-place retyping scans every name table, parameters are unbound after the call, memory ids are fresh per expansion and the memory maps are saved/restored. The re-declaration probe uses the creation node's id (R17), local declarations are typed by their own symbol (R19), a nested call is lowered in the outermost call site's name maps (R20).",
    technique="call-graph effect analysis + CFG dominance/must-pass-through for save/restore pairing + def-use slices for id freshness",
    ref="DESIGN.md §2 C15"),
  "C16": dict(
    text="Static analysis: the iteration-sequence function must match an accepted idiom (strict exclusive end per direction, append before advance, start from start, list order kept); "
         "analyzer and lowerer both draw from that one function; resolvers raise instead of defaulting; per-iteration scope save/cut-back for every map the body can mutate; iterator "
-        "immutable; declaration ids fresh per iteration; transformer passes start/stop/step/values in grammar order. Decides these necessary conditions, not equivalence with the unrolled program. Loop scope is restored by value for the names an iteration binds; the analyzer rewrites shared syntax nodes only with functions of the syntax (R6); resolvers prefer parameters over iterators (R7). Also: explicit node ids contain an IR-level id, the iterator survives calls in the body (snapshot restore), memory maps are cut back per iteration.",
+        "immutable; declaration ids fresh per iteration; transformer passes start/stop/step/values in grammar order. Decides these necessary conditions, not equivalence with the unrolled program. Loop scope is restored by value for the names an iteration binds; the analyzer rewrites shared syntax nodes only with functions of the syntax (R6); resolvers prefer parameters over iterators (R7). Also: explicit node ids contain an IR-level id, the iterator survives calls in the body (snapshot restore), memory maps are cut back per iteration. The step is taken whether it is a number or a name; iteration names shadow parameters (R11).",
    technique="idiom matching over ast + CFG + call-graph effect analysis + def-use slices",
    ref="DESIGN.md §2 C16"),
  "C13": dict(
    text="Static analysis over constant-evaluated tables and slot traces: the allocatable list minus the exclusion set (which must name RESERVED_SIGNALS and WILDCARD_SIGNALS whenever the list "
         "contains one of them) can yield neither a wildcard nor the write-enable signal; the three reserved tables agree; the allocator returns pool members only; contributions to the exclusion "
         "sets are classified by the AST attribute they read (variable name vs signal name) and an explicit built-in signal name must reach it; explicit names pass name resolution unchanged. "
-        "Decides these table/flow clauses, not the renaming-invariance consequence. IR-derived signal properties of combinator placements pass through a name resolver (R4); the CSE key separates output types (R5). Also: one counter for internal names (no captured piece of a registry), a usage entry answers for its own node only, the variable's name is never a signal candidate when a type is known, bundle-literal members are registered.",
+        "Decides these table/flow clauses, not the renaming-invariance consequence. IR-derived signal properties of combinator placements pass through a name resolver (R4); the CSE key separates output types (R5). Also: one counter for internal names (no captured piece of a registry), a usage entry answers for its own node only, the variable's name is never a signal candidate when a type is known, bundle-literal members are registered. A bundle literal holds each channel once under a bare membership test (R10), the pool cursor hands out each entry once (R11), a simplified projection carries its own target (R12), a local constant is typed by its own symbol only (R13).",
    technique="constant evaluation of tables + def-use slot tracing with kind classification + guard-chain analysis",
    ref="DESIGN.md §2 C13"),
  "C17": dict(
@@ -110,14 +110,14 @@ CLAIMS = {
    text="Static analysis: the two gate placements are compared as data (same signal, same constant, comparators complementary over the integers around the constant, copy-count, same output); "
         "typestate of the enable in the lowerer (every signal-valued enable is retyped to the gates' signal; the two constant-one recognisers agree; the enable sinks on both gates; the signal "
         "is reserved and excluded from allocation); the two explicit wires and the planner's colour locks agree; reads are sourced by the hold gate; gate keys are read by the configurator; "
-        "both optimizers re-point both operands of a memory write. NOT decided: holding across an enable edge, one-tick glitches, arbitrary data expressions, readers not disturbing the value. Also: only node classes placed with an output signal of their own are retyped in place (a memory read is not), the feedback rewrite touches reads of its own cell only.",
+        "both optimizers re-point both operands of a memory write. NOT decided: holding across an enable edge, one-tick glitches, arbitrary data expressions, readers not disturbing the value. Also: only node classes placed with an output signal of their own are retyped in place (a memory read is not), the feedback rewrite touches reads of its own cell only. A constant-one reference is exempt from retyping only on the enable signal.",
    technique="table semantics over placement literals + CFG typestate + colour agreement + bag-key agreement + IR-schema slots",
    ref="DESIGN.md §2 C03"),
  "C04": dict(
    text="Static analysis (thin, stated as such): guard dominance of the arithmetic-feedback rewrite; on every path that records the optimisation the gates are flagged, the source and every "
         "recorded read re-pointed (CFG must-pass-through); the feedback flag has a reader that adds an output->input self-wire whose colour equals the planner's lock; chains register last->first; "
         "the dependence walk and first-consumer search inspect both operands; reverse/self edges are classified bidirectional without extra exclusions and routed directly. NOT decided: the latency L, "
-        "value(t+L) = f(value(t)), equality of folded and unfolded forms — tick dynamics. Also: old producers of the cell and of its earlier reads are cleared before the arithmetic node is added; colour entries under reversed or spanning-tree keys never replace a recorded edge.",
+        "value(t+L) = f(value(t)), equality of folded and unfolded forms — tick dynamics. Also: old producers of the cell and of its earlier reads are cleared before the arithmetic node is added; colour entries under reversed or spanning-tree keys never replace a recorded edge. Inputs on a folded cell's own signal are locked to the other colour than the loop wire (R10), a folded cell's output is not pinned to a colour (R11), relays are shared only through can_route_network (R9).",
    technique="CFG dominance/must-pass-through + writer/reader key agreement + guard-chain analysis",
    ref="DESIGN.md §2 C04"),
  "C06": dict(
@@ -134,7 +134,7 @@ CLAIMS = {
         "counter that advances per new key; the id of the edge's own source group reaches the relay router on both routing paths; relays are offered for reuse only after can_route_network "
         "(whose body must be `colour free or same id`) and every hop used is recorded; the conflict graph groups by (sink, resolved signal), exempts only same-merge pairs and pushes the opposite "
         "colour to neighbours. NOT decided: non-interference itself — two sources of different signals feeding one sink on one colour join their networks by design; whether anything of P becomes "
-        "visible in Q is a property of the whole wired graph under a given layout. Also: the returned-entity side channel is reset before and bound after each call without further conditions; parameters bound for a call are unbound after it.",
+        "visible in Q is a property of the whole wired graph under a given layout. Also: the returned-entity side channel is reset before and bound after each call without further conditions; parameters bound for a call are unbound after it. Conflicts are also built from each source's fan-out (R10); relay lookup helpers are held to the same isolation test as loops.",
    technique="CFG/guard-chain checks on the network-id and relay-reuse code + structural check of the conflict-graph construction",
    ref="DESIGN.md §2 C12"),
  "C01": dict(
@@ -143,7 +143,7 @@ CLAIMS = {
         "analyzer, lowerer, DSL->Factorio map) and dispatch; operand order from the AST through builder, IR, placement keys to the first/second slots of the emitted combinator; the builder "
         "terms of && / || are extracted per path and evaluated in the checker's own combinator algebra over {-2..2}^2 against the documented truth value; chain folding only over one operator; "
         "the result-type decision table; spanning-tree colour keys never replace a logical edge's colour. NOT decided: clause (e) — that the wiring delivers each operand alone on the colour "
-        "the combinator reads, constant inlining, settling for every input. A typed literal keeps its value expression on every lowering path (R8). Also: no decider condition is assembled with a constant and a second signal together (constant-first comparisons are mirrored, rows of two constants are decided at emission and compare the placeholder with 0), literal operands are recorded as constants, operand wire selections default to both colours, copy-count mode is dropped only for a reference that was inlined.",
+        "the combinator reads, constant inlining, settling for every input. A typed literal keeps its value expression on every lowering path (R8). Also: no decider condition is assembled with a constant and a second signal together (constant-first comparisons are mirrored, rows of two constants are decided at emission and compare the placeholder with 0), literal operands are recorded as constants, operand wire selections default to both colours, copy-count mode is dropped only for a reference that was inlined. A pass-through gate outputs the signal it copies and is never renamed by a folded projection (R17), a wire-merge operand is read on the colour of its parts (R16), a suppressed value with a live reader is kept (R18), sources that meet through a shared third source are separated (R19).",
    technique="grammar-model ladder check + table agreement + def-use operand-order trace + extracted-term evaluation in a small algebra",
    ref="DESIGN.md §2 C01"),
  "C02": dict(
@@ -151,7 +151,7 @@ CLAIMS = {
         "anything for any(), identical in the lowerer and in the inlined entity condition); the separation flag is set wherever a signal-valued scalar/condition meets a bundle, forwarded by "
         "the placer for both node kinds, consumed by the planner which locks one input to the non-default colour, and the wire selection stored for an operand with a resolved source is a "
         "single looked-up colour; a constant literal member is recorded once (CFG); duplicate detection treats nested-bundle members like direct members (sibling-branch check). NOT decided: "
-        "that no foreign signal is present on the bundle's wire for a given program/layout, merge colouring outcomes, filter values at run time. Also: every announced scalar member of a bundle literal is delivered (must-pass over the element loop), nested merges are expanded transitively, `-b` is decided member-wise before scalar nodes are built, a defaulted constant is extracted with the symbol resolver, both decider forms (gate, filter) and both sides of a gate condition get wire separation, explicit member names pass the resolver on the name alone.",
+        "that no foreign signal is present on the bundle's wire for a given program/layout, merge colouring outcomes, filter values at run time. Also: every announced scalar member of a bundle literal is delivered (must-pass over the element loop), nested merges are expanded transitively, `-b` is decided member-wise before scalar nodes are built, a defaulted constant is extracted with the symbol resolver, both decider forms (gate, filter) and both sides of a gate condition get wire separation, explicit member names pass the resolver on the name alone. A wildcard compared with a signal is separated from it (R14), bundle constants are never inlined as numbers (R15), the gating lock reaches the producers of a merged bundle (R16), wildcard rows of folded conditions get their colour (R17).",
    technique="table check of wildcard roles + flag-chain def-use + CFG exclusivity + sibling-branch comparison",
    ref="DESIGN.md §2 C02"),
  "C20": dict(
